@@ -103,6 +103,7 @@ def run_alone_vs_core(spec):
         f_core = asm_fields(asm)
         P_asm = float(asm.total_power)
         flow_core = float(asm.flow_rate)
+        approx_core = [bool(getattr(g_, "_conv_approx", False)) for g_ in asm.region]
         z_core = np.array(r.z)
         tname = asm.name
         row = expanded[kk]
@@ -122,6 +123,10 @@ def run_alone_vs_core(spec):
                        "assembly %d (%s): %.12g kg/s in the core of %d, %.12g kg/s alone (same assignment entry, units %s)"
                        % (kk, tname, flow_core, len(names), fa, o.classes["units"])):
             return o
+        # which heat-transfer model its regions use (low-flow convection approximation) is decided by its own step requirement
+        approx_alone = [bool(getattr(g_, "_conv_approx", False)) for g_ in r1.assemblies[0].region]
+        o.check(approx_alone == approx_core, "conv_approx_flag_depends_on_other_assemblies",
+                "assembly %d (%s): regions use the approximation %s in the core of %d, %s alone" % (kk, tname, approx_core, len(names), approx_alone))
         if not (len(r1.z) == len(z_core) and np.allclose(r1.z, z_core, rtol=0, atol=1e-12)):
             o.inconclusive = "planes_differ"
             return o
@@ -131,7 +136,7 @@ def run_alone_vs_core(spec):
     w = compare(o, f_core, f_alone, "assembly %d (%s) alone vs in a core of %d" % (kk, tname, len(names)))
     o.metric("max_deviation_K", w)
     o.classes.update({"n_asm": len(names), "same_type_members": min(n_same, 4),
-                      "coolant": spec["core"]["coolant_material"], "tdep": spec["core"]["coolant_material"] != "cool_c"})
+                      "coolant": spec["core"]["coolant_material"], "conv_mix": bool(spec.get("_conv_mix")), "tdep": spec["core"]["coolant_material"] != "cool_c"})
     o.nontrivial = n_same >= 2 and o.classes["tdep"]
     return o
 
@@ -168,7 +173,7 @@ def run_type_sharing(spec):
     o.metric("max_deviation_K", w)
     n_same = max(names.count(x) for x in set(names))
     o.classes.update({"n_asm": len(names), "same_type_members": min(n_same, 4),
-                      "tdep": spec["core"]["coolant_material"] != "cool_c"})
+                      "conv_mix": bool(spec.get("_conv_mix")), "tdep": spec["core"]["coolant_material"] != "cool_c"})
     o.nontrivial = n_same >= 2 and o.classes["tdep"]
     return o
 
@@ -262,7 +267,7 @@ def run_interleaving(spec):
         o.metric("max_deviation_K", w)
     n_same = max(names.count(x) for x in set(names))
     o.classes.update({"n_asm": len(names), "same_type_members": min(n_same, 4),
-                      "tdep": spec["core"]["coolant_material"] != "cool_c", "schedule_len": min(len(sched), 50) // 10 * 10})
+                      "conv_mix": bool(spec.get("_conv_mix")), "tdep": spec["core"]["coolant_material"] != "cool_c", "schedule_len": min(len(sched), 50) // 10 * 10})
     o.nontrivial = n_same >= 2 and o.classes["tdep"] and len(sched) > 0
     return o
 
@@ -277,6 +282,30 @@ def cores(draw, q, with_target=False, with_schedule=False, gap_models=("none",))
                               conv_approx=True, byp_frac=(0.03, 0.3)))
     if draw(st.booleans()):
         spec["setup"]["param_update_tol"] = gen.r6(draw(gen.logfl(1e-4, 0.1)))
+    spec["_conv_mix"] = False
+    if len(spec["assignment"]) >= 2 and draw(st.integers(0, 3)) == 0:
+        # class "conv_approx mix": the low-flow convection approximation is on, one assembly (drawn
+        # position in the list) has a very low flow (its edge / corner cells limit the step below the cut-off) and the
+        # others are cooled normally - flags set while one assembly is set up must not leak to the ones after it
+        spec["setup"]["conv_approx"] = True
+        # (the step requirement scales with the flow: 20-80 vs >= 2000 in Reynolds number separates the low-flow assembly
+        # from the others by more than a decade; a cut-off around 1e-3 m lies between them for most drawn geometries)
+        spec["setup"]["conv_approx_dz_cutoff"] = draw(st.sampled_from([5e-4, 1e-3, 2e-3]))
+        k_low = draw(st.integers(0, len(spec["assignment"]) - 1))
+        for k, (row, pm) in enumerate(zip(spec["assignment"], spec["_meta"]["pos"])):
+            if "FLOWRATE" not in row[4]:
+                continue
+            target = gen.r6(draw(gen.logfl(20.0, 80.0))) if k == k_low else (pm["Re"] if pm["Re"] > 900 else gen.r6(draw(gen.logfl(2e3, 2e4))))
+            f = target / pm["Re"]
+            if f != 1.0:
+                row[4]["FLOWRATE"] = gen.r6(row[4]["FLOWRATE"] * f)
+                pm["Re"], pm["flow"] = target, row[4]["FLOWRATE"]
+                ap = spec["power"]["files"][0][str(pm["idx"] + 1)]
+                for key in ("pins", "duct", "cool"):
+                    if key in ap:
+                        ap[key]["base"] = [[gen.r6(x * f) for x in r_] for r_ in ap[key]["base"]]
+        spec["power"]["total_power"] = None
+        spec["_conv_mix"] = True
     if with_target:
         spec["_target"] = draw(st.integers(0, 6))
         spec["_merge"] = draw(st.integers(0, 2)) > 0
